@@ -92,6 +92,20 @@ def run_rd(scn):
             else:
                 s = py_trees.display.ascii_tree(root, indent=int(t[1]), show_status=ss)
             out.append("X " + " ".join(text_lines(s, ss)))
+        elif t[0] == "textsub":
+            pre = []
+
+            def walk(b):
+                pre.append(b)
+                for c in b.children:
+                    walk(c)
+            walk(root)
+            k = int(t[1])
+            if k < len(pre):
+                s = py_trees.display.ascii_tree(pre[k], indent=int(t[2]), show_status=False)
+                out.append("X " + " ".join(text_lines(s, False)))
+            else:
+                out.append("X")
         elif t[0] == "dot":
             g = py_trees.display.dot_tree(root, visibility_level=py_trees.common.VisibilityLevel(int(t[1])),
                                           collapse_decorators=t[2] == "1")
